@@ -234,5 +234,23 @@ fn main() {
         if !matches!(read_pdu(&mut Cursor::new(&big_bytes[..]), big_len - 1, true), Err(_)) { t.fail(format!("strict mode: a PDU of length {} is accepted with maximum {}", big_len, big_len - 1)); }
         let _ = plen;
     }
+    // an AE title that does not fit its fixed 16-byte field: refused, never cut short (17 and 30 characters, each of the four fields)
+    for n in [17usize, 30] {
+        for field in 0..4 {
+            t.cases += 1;
+            let long = "ABCDEFGHIJKLMNOPQRSTUVWXYZ0123".chars().take(n).collect::<String>();
+            let (c1, c2) = if field % 2 == 0 { (long.clone(), "B".to_string()) } else { ("A".to_string(), long.clone()) };
+            let pdu = if field < 2 {
+                Pdu::AssociationRQ(AssociationRQ { protocol_version: 1, calling_ae_title: c1, called_ae_title: c2, application_context_name: "1.2.840.10008.3.1.1.1".to_string(), presentation_contexts: vec![], user_variables: vec![] })
+            } else {
+                Pdu::AssociationAC(AssociationAC { protocol_version: 1, calling_ae_title: c1, called_ae_title: c2, application_context_name: "1.2.840.10008.3.1.1.1".to_string(), presentation_contexts: vec![], user_variables: vec![] })
+            };
+            let mut bytes = Vec::new();
+            if write_pdu(&mut bytes, &pdu).is_ok() {
+                let back = read_pdu(&mut Cursor::new(&bytes[..]), MAXIMUM_PDU_SIZE, true).ok().flatten();
+                t.fail(format!("an AE title of {} characters was written ({}); it reads back as {:?}", n, if field < 2 { "A-ASSOCIATE-RQ" } else { "A-ASSOCIATE-AC" }, back.map(|p| match p { Pdu::AssociationRQ(r) => (r.calling_ae_title, r.called_ae_title), Pdu::AssociationAC(r) => (r.calling_ae_title, r.called_ae_title), _ => (String::new(), String::new()) })));
+            }
+        }
+    }
     println!("EXHAUSTIVE unit=C25.pdus cases={} mismatches={}", t.cases, t.bad);
 }
